@@ -5,7 +5,7 @@
    Exception (CbExc) or StopIteration (CbStop). *)
 From Isobar Require Import Base.Prelude Sched.Model Sched.TimeProofs Sched.MergeProofs Sched.FaultProofs Sched.RenameProofs Sched.TickFrame Sched.ReachProofs
   Sched.ExcClass Sched.ExcClassProofs Sched.Reconf Sched.ReconfProofs IO.MidiBytes IO.FileWire IO.FileWireProofs Sched.DevFile Sched.DevFileProofs
-  Sched.RunLoop Sched.RunLoopProofs.
+  Sched.RunLoop Sched.RunLoopProofs Sched.AfterFaultProofs.
 
 (** * Tolerant mode: containment *)
 (* With ignore_exceptions, for EVERY state of the timeline (any number and order of tracks, any streams, any device
@@ -568,3 +568,55 @@ Example C17_life_nonvacuous :
   /\ now (life_state (lf_cfg false) tl0 (lf_l LBackground [])) = 4 /\ now (life_state (lf_cfg false) tl0 (lf_l LBackground [LStop; LReset])) = 2
   /\ first_stop (lf_cfg false) 50 (life_state (lf_cfg false) tl0 (firstn 4 (lf_l LBackground []))) = Some RException.
 Proof. vm_compute. repeat split. Qed.
+
+(** * After a contained fault (Sched/AfterFaultProofs.v) *)
+(* The failing track has left [tracks], and [tracks] is all there is: Sched/Model.v's named replace looks names up there.  So the
+   tolerant faulting turn of the only track called nm frees the name ... *)
+Theorem C17_fault_frees_name : forall cfg, ignore_exc cfg = true -> forall tl id tr tr1 c n1 nm,
+  find_track id (tracks tl) = Some tr -> NoDup (map t_id (tracks tl)) -> only_named nm id (tracks tl) ->
+  track_tick_a cfg (now tl) tr (dev_calls tl) = (tr1, c, n1, TRaise) ->
+  name_free nm (tracks (fst (fst (tick_one cfg tl id)))).
+Proof. exact fault_frees_name. Qed.
+(* ... a later schedule() under that name - replace=True or not - is the call that creates a fresh track ... *)
+Theorem C17_reschedule_under_freed_name : forall cfg tl s q d count rwd nm replace, name_free nm (tracks tl) ->
+  exec_op cfg tl (OSchedule s q d count rwd (Some nm) replace) = exec_op cfg tl (OSchedule s q d count rwd (Some nm) false).
+Proof. exact schedule_under_free_name. Qed.
+(* ... appended behind the tracks that are left with the next fresh id (the track limit counts the tracks that are left) ... *)
+Theorem C17_reschedule_creates_fresh : forall cfg tl s q d count rwd nm,
+  (max_tracks cfg = 0 \/ Z.of_nat (length (tracks tl)) < max_tracks cfg) ->
+  let '(tl1, tr1) := track_update cfg tl (new_track (next_id tl) count rwd (Some nm)) s q d None in
+  exec_op cfg tl (OSchedule s q d count rwd (Some nm) false) =
+    (mkTL (now tl1) (tracks tl1 ++ [tr1]) (actions tl1) (S (next_id tl1)) (def_q tl1) (def_d tl1) (dev_calls tl1), ROk).
+Proof. exact schedule_creates_fresh. Qed.
+(* ... whose record is the one the same call creates in the run in which the failing track never existed (same clock, same
+   defaults), up to the id *)
+Theorem C17_fresh_track_same_record : forall cfg tlA tlB idA idB s q d count rwd nm,
+  now tlA = now tlB -> def_q tlA = def_q tlB -> def_d tlA = def_d tlB ->
+  let trA := snd (track_update cfg tlA (new_track idA count rwd (Some nm)) s q d None) in
+  let trB := snd (track_update cfg tlB (new_track idB count rwd (Some nm)) s q d None) in
+  trA = mkTrack idA (t_stream trB) (t_cur trB) (t_next trB) (t_max trB) (t_count trB) (t_offs trB)
+                (t_muted trB) (t_started trB) (t_finished trB) (t_rwd trB) (t_name trB).
+Proof. exact fresh_track_same_record. Qed.
+Theorem C17_unschedule_removed : forall cfg tl id, find_track id (tracks tl) = None ->
+  exec_op cfg tl (OUnschedule id) = (tl, RTrackNotFound).
+Proof. exact unschedule_removed. Qed.
+
+(* fx_h with the failing track 1 called 7 and, after its fault, a schedule() under the name 7: a fresh track 3 appears and plays;
+   on the history without the failing track the same call creates track 2, which makes the same calls; unschedule of the failed
+   track reports RTrackNotFound *)
+Definition af_h (with_failing : bool) : list op :=
+  [ OSchedule (mkStream [nt 2 60 0 1; nt 2 62 0 1] 0 false) None None None true None true ] ++
+  (if with_failing then [OSchedule (mkStream [nt 2 50 1 3; RRaise; nt 2 51 1 1] 0 false) None None None true (Some 7) true] else []) ++
+  [ OSchedule (mkStream [REvent (mkEvent 2 true (KAction 0)); nt 2 70 2 1] 0 false) None None None true None true;
+    OTick; OTick; OTick;
+    OSchedule (mkStream [nt 1 80 3 1; nt 1 81 3 1] 0 false) None None None true (Some 7) true ] ++
+  (if with_failing then [OUnschedule 1] else []) ++ [ OTick; OTick; OTick ].
+Definition on3 (c : call) : bool := call_ok (fun ch => ch =? 3) (fun _ => false) c.
+Example C17_after_fault_nonvacuous :
+  map snd (run (fx_cfg true) tl0 (af_h true)) = [[0]; [0; 1]; [0; 1; 2]; [0; 1; 2]; [0; 1; 2]; [0; 2]; [0; 2; 3]; [0; 2; 3]; [0; 2; 3]; [3]; []]%nat
+  /\ nth 7 (map (fun o => snd (fst o)) (run (fx_cfg true) tl0 (af_h true))) ROk = RTrackNotFound
+  /\ map (filter on3) (tick_calls (fx_cfg true) tl0 (af_h true)) = [[]; []; []; [CNoteOn 80 64 3]; [CNoteOff 80 3; CNoteOn 81 64 3]; [CNoteOff 81 3]]
+  /\ map (filter on3) (tick_calls (fx_cfg true) tl0 (af_h false)) = map (filter on3) (tick_calls (fx_cfg true) tl0 (af_h true))
+  /\ find_named 7 (tracks (run_state (fx_cfg true) tl0 (firstn 6 (af_h true)))) = None
+  /\ (exists t, find_named 7 (tracks (run_state (fx_cfg true) tl0 (firstn 5 (af_h true)))) = Some t /\ t_id t = 1%nat).
+Proof. vm_compute. repeat split. eexists. split; reflexivity. Qed.
